@@ -563,11 +563,15 @@ func (o *Oracles) onApplyResult(w *World, st *Stack, c *apCall, planStable bool,
 		return // another apply may have changed the configuration since: nothing more can be attributed
 	}
 	cur, xerr := st.provisioner().Export(context.Background(), PipelineID)
-	if xerr != nil {
+	memoryTrusted := err == nil || c.dbFaults <= 1 // (a roll-back whose own store writes fail cannot restore the in-memory view)
+	if xerr != nil && memoryTrusted {
 		w.violate("C16", "export-failed-after-apply", fmt.Sprintf("after apply %q the pipeline cannot be exported: %s", c.kind, firstLine(xerr.Error())))
 		return
 	}
-	got := canon(exportable(cur))
+	got := ""
+	if xerr == nil {
+		got = canon(exportable(cur))
+	}
 	if err == nil && !stale {
 		// (d) success: the configuration is exactly the desired one, the reported mode is what happened
 		if got != wantCanon {
@@ -600,6 +604,9 @@ func (o *Oracles) onApplyResult(w *World, st *Stack, c *apCall, planStable bool,
 		}
 		return
 	}
+	if w.hasViolationClass("status-write-overwrote-newer-config") || w.hasViolationClass("import-overwrote-newer-status") {
+		return // the stored document was already damaged by the lost update reported above (its own finding)
+	}
 	// (e) failure: old or new, completely. What is promised is a consistent *stored*
 	// configuration: restart every service from the durable map and export from there.
 	fresh := w.newStack()
@@ -626,7 +633,7 @@ func (o *Oracles) onApplyResult(w *World, st *Stack, c *apCall, planStable bool,
 	}
 	// the services' in-memory view follows the store as long as the roll-back itself met no
 	// further store failure (its own writes need the store)
-	if c.dbFaults <= 1 && got != oldCanon && got != wantCanon {
+	if memoryTrusted && got != oldCanon && got != wantCanon {
 		w.violate("C16", "failed-apply-left-mixed-config", fmt.Sprintf("apply %q failed (%s) and left a configuration that is neither the old nor the new one: vs old: %s", c.kind, firstLine(msg), diffViews(view{"cfg": oldCanon}, view{"cfg": got})))
 	}
 }
